@@ -21,7 +21,7 @@ import tempfile
 
 import numpy as np
 
-from harness import core, chain_engine as ce
+from harness import core, probes, chain_engine as ce
 
 LEVEL = "model_checking"
 
@@ -217,6 +217,25 @@ def run(ctx):
         configs.append(("6 sites, order 1, one step", config(6, 2, 2, 1, 8, 1, [1, 2, 3, 1, 2], [1, 0, 1, 2, 1, 3],
                         [["I", "CSP", "I", "I", "SW", "I"]], [0, 1, 0, 0, 1, 0], "{}",
                         [[1], [6], [3, 4], [1, 6]], True)))
+    # seed-drawn configurations (lengths, orders, couplings, fields, environment gates, ancilla levels, controls)
+    rng = probes.rng_for(ctx.seed, "c10-configs")
+    gates = ["I", "SC", "CSP", "SW", "CS"]
+    for k in range(12 if quick else 60):
+        nsites = int(rng.integers(2, 5))
+        nsteps = int(rng.integers(1, 3))
+        order = int(rng.integers(1, 3))
+        jj = [int(x) for x in rng.integers(0, 4, nsites - 1)]
+        hh = [int(x) for x in rng.integers(0, 4, nsites)]
+        envs = [int(x) for x in rng.integers(0, 2, nsites)]
+        plan = [[gates[int(rng.integers(1, 5))] if envs[i] else "I" for i in range(nsites)] for _ in range(nsteps)]
+        a0 = [int(rng.integers(0, 2)) if envs[i] else 0 for i in range(nsites)]
+        nctl = int(rng.integers(0, 3))
+        ctl = "{" + ", ".join("<<%d, %s, %d, %d, %d>>" % (int(rng.integers(0, nsteps + 1)), ("TRUE", "FALSE")[int(rng.integers(0, 2))],
+                                                           int(rng.integers(1, nsites + 1)), (2, 5, 3)[int(rng.integers(0, 3))], c + 1)
+                              for c in range(nctl)) + "}"
+        subs = [[i] for i in range(1, nsites + 1)] + [[1, nsites]] + ([list(range(1, nsites + 1))] if nsites > 2 else [])
+        configs.append(("seed-drawn #%d: %d sites, order %d, %d step(s), J=%s, H=%s, %s, controls %s" % (
+            k, nsites, order, nsteps, jj, hh, plan, ctl), config(nsites, 2, 2, nsteps, 8, order, jj, hh, plan, a0, ctl, subs, False)))
     cases = []
     for label, consts in configs:
         r = ctx.tlc("Chain", CFG, label=label, constants=consts, workers=4)
@@ -232,7 +251,9 @@ def run(ctx):
         for x in mm:
             ctx.violation("C10:sequential:%s" % x["what"], "%s: %s" % (cid, x), {"case": c, "mode": "sequential"})
     cj = []
-    for label, c, _ in cases:
+    for ci, (label, c, _) in enumerate(cases):
+        if label.startswith("seed-drawn") and ci % 4:
+            continue
         for mode, order in (("multithread", "real"), ("multiprocess", "real"), ("multithread", "reverse"),
                             ("multithread", "rotate"), ("multiprocess", "reverse")):
             cj.append((c, mode, order, ctx.seed))
@@ -243,7 +264,8 @@ def run(ctx):
         ctx.case(cid, nontrivial=True)
         for x in mm:
             ctx.violation("C10:%s:%s" % (mode, x["what"]), "%s: %s" % (cid, x), {"case": c, "mode": mode, "exec": order})
-    uj = [(c, ctx.seed) for label, c, _ in cases if all(v == 0 for v in c["j"])]
+    # (without control operations: a non-trace-preserving control on one site rescales the reduced states of all others)
+    uj = [(c, ctx.seed) for label, c, _ in cases if all(v == 0 for v in c["j"]) and not c["ctl"]]
     for (c, _), mm in zip(uj, core.pmap(uncoupled_job, uj)):
         ctx.case({"uncoupled": True, "l": c["l"]}, nontrivial=True)
         for x in mm:
@@ -270,7 +292,7 @@ def run(ctx):
                     eps, ref["bond"][-1], mode, got["bond"][-1]), {"generic": [mode, eps]})
             elif max(np.max(np.abs(np.array(a) - np.array(b))) for a, b in zip(got["dm"], ref["dm"])) > 1e-10:
                 ctx.violation("C10:%s:modes-differ-states" % mode, "epsrel=%g" % eps, {"generic": [mode, eps]})
-    ctx.rule = ("chain configurations of Chain.tla (lengths 2..4, Trotter orders 1/2, ancilla environments, controls; TLC "
+    ctx.rule = ("chain configurations of Chain.tla (7-10 fixed and 12 / 60 seed-drawn ones: lengths 2..4, Trotter orders 1/2, ancilla environments, controls; TLC "
                 "explores every completion order of every gate layer) x execution modes {sequential, multithread, "
                 "multiprocess with real pools in fresh interpreters, order-controlled executor}; uncoupled chains vs "
                 "single-site runs; two-site generic chains vs dense propagator (numerical)")
